@@ -18,5 +18,3 @@ func (ww *workerWorld) onCrash(r *runner)                      {}
 func (ww *workerWorld) quiescent(r *runner) bool               { return true }
 
 func (r *runner) replBackend() systemcontroller.ReplicationBackend { return nil }
-
-func checkImportInterleave(r *runner, rec CommitRec) []Violation { return nil }
